@@ -504,6 +504,129 @@ theorem interp_discard_stays (M : List Ev) (hM : ∀ e ∈ M, modeOf e = none) :
             | (simp only [Option.some.injEq] at hx; subst hx; exact hd)
             | (split at hx <;> simp_all)
 
+/-! ### Tracking one option variable through the events -/
+
+/-- If a projection `g` of the option variables changes under every single
+event as `upd` says, the value at the end is the fold of `upd`. -/
+theorem interp_track {α : Type} (g : Config → α) (upd : Ev → α → α)
+    (hact : ∀ a ch c c', applyAct a ch c = some c' → g c' = upd (.act a ch) (g c))
+    (hN : ∀ s c v, g { c with numWorker := some v } = upd (.setN s) (g c))
+    (hM : ∀ s c v, g { c with maxMem := some v } = upd (.setM s) (g c))
+    (hop : ∀ t x, upd (.operand t) x = x)
+    (es : List Ev) : ∀ (c c' : Config) (ops : List Tok),
+    interp c es = .config c' ops → g c' = es.foldl (fun x e => upd e x) (g c) := by
+  induction es with
+  | nil =>
+    intro c c' ops h
+    simp only [interp, OutcomeL.config.injEq] at h
+    rw [← h.1]; rfl
+  | cons e es ih =>
+    intro c c' ops h
+    rw [List.foldl_cons]
+    cases e with
+    | operand t =>
+      simp only [interp] at h
+      obtain ⟨ops', h1, _⟩ := consOp_eq_config h
+      rw [hop]; exact ih c c' ops' h1
+    | bad => simp only [interp, reduceCtorEq] at h
+    | setN s =>
+      simp only [interp] at h
+      cases hx : xstrtol s 1 mxWorker with
+      | none => simp only [hx, reduceCtorEq] at h
+      | some v => simp only [hx] at h; rw [← hN s c v]; exact ih _ c' ops h
+    | setM s =>
+      simp only [interp] at h
+      cases hx : xstrtol s 1 sizeMax with
+      | none => simp only [hx, reduceCtorEq] at h
+      | some v => simp only [hx] at h; rw [← hM s c v]; exact ih _ c' ops h
+    | act a ch =>
+      simp only [interp] at h
+      by_cases hu : a = .usage
+      · simp [hu] at h
+      by_cases hv : a = .version
+      · simp [hv] at h
+      simp only [hu, hv, if_false] at h
+      cases hx : applyAct a ch c with
+      | none => simp only [hx, reduceCtorEq] at h
+      | some c2 =>
+        simp only [hx] at h
+        rw [← hact a ch c c2 hx]; exact ih c2 c' ops h
+
+/-- a sticky flag: true at the end iff true at the start or set by some event -/
+theorem foldl_or (P : Ev → Bool) (es : List Ev) (x : Bool) :
+    es.foldl (fun x e => x || P e) x = (x || es.any P) := by
+  induction es generalizing x with
+  | nil => simp
+  | cons e es ih => simp [List.foldl_cons, ih, Bool.or_assoc]
+
+/-- "last one wins": the fold of `fun x e => (sel e).getD x` -/
+theorem foldl_last {α : Type} (sel : Ev → Option α) (es : List Ev) (x : α) :
+    es.foldl (fun x e => (sel e).getD x) x = ((es.filterMap sel).getLast?).getD x := by
+  induction es generalizing x with
+  | nil => rfl
+  | cons e es ih =>
+    rw [List.foldl_cons, ih]
+    cases hs : sel e with
+    | none => simp [hs]
+    | some b => simp [hs, List.getLast?_cons]
+
+def isKeepEv : Ev → Bool
+  | .act .keep _ => true
+  | _ => false
+
+def isForceEv : Ev → Bool
+  | .act .force _ => true
+  | _ => false
+
+/-- the block size an event selects -/
+def levelOf : Ev → Option Nat
+  | .act (.level n) _ => some n
+  | .act .levelDigit ch => some (ch.toNat - 48)
+  | _ => none
+
+theorem interp_keep (es : List Ev) (c c' : Config) (ops : List Tok)
+    (h : interp c es = .config c' ops) : c'.keep = (c.keep || es.any isKeepEv) := by
+  rw [← foldl_or]
+  refine interp_track (fun c => c.keep) (fun e x => x || isKeepEv e) ?_ ?_ ?_ ?_ es c c' ops h
+  · intro a ch c c' hx
+    cases a <;> simp only [applyAct, reduceCtorEq] at hx <;>
+      first
+        | (simp only [Option.some.injEq] at hx; subst hx; simp [isKeepEv])
+        | (split at hx <;> simp only [reduceCtorEq, Option.some.injEq] at hx; subst hx
+           simp [isKeepEv])
+  · intro s c v; simp [isKeepEv]
+  · intro s c v; simp [isKeepEv]
+  · intro t x; simp [isKeepEv]
+
+theorem interp_force (es : List Ev) (c c' : Config) (ops : List Tok)
+    (h : interp c es = .config c' ops) : c'.force = (c.force || es.any isForceEv) := by
+  rw [← foldl_or]
+  refine interp_track (fun c => c.force) (fun e x => x || isForceEv e) ?_ ?_ ?_ ?_ es c c' ops h
+  · intro a ch c c' hx
+    cases a <;> simp only [applyAct, reduceCtorEq] at hx <;>
+      first
+        | (simp only [Option.some.injEq] at hx; subst hx; simp [isForceEv])
+        | (split at hx <;> simp only [reduceCtorEq, Option.some.injEq] at hx; subst hx
+           simp [isForceEv])
+  · intro s c v; simp [isForceEv]
+  · intro s c v; simp [isForceEv]
+  · intro t x; simp [isForceEv]
+
+theorem interp_level (es : List Ev) (c c' : Config) (ops : List Tok)
+    (h : interp c es = .config c' ops) :
+    c'.bs100k = ((es.filterMap levelOf).getLast?).getD c.bs100k := by
+  rw [← foldl_last]
+  refine interp_track (fun c => c.bs100k) (fun e x => (levelOf e).getD x) ?_ ?_ ?_ ?_ es c c' ops h
+  · intro a ch c c' hx
+    cases a <;> simp only [applyAct, reduceCtorEq] at hx <;>
+      first
+        | (simp only [Option.some.injEq] at hx; subst hx; simp [levelOf])
+        | (split at hx <;> simp only [reduceCtorEq, Option.some.injEq] at hx; subst hx
+           simp [levelOf])
+  · intro s c v; simp [levelOf]
+  · intro s c v; simp [levelOf]
+  · intro t x; simp [levelOf]
+
 /-! ### Clusters -/
 
 /-- an action that neither ends the cluster nor takes an argument -/
